@@ -1044,6 +1044,39 @@ func (dsc *dataStoreCommand) randomKey() (output respValue) {
 	return
 }
 
+// FLUSHDB: empties this database
+func (dsc *dataStoreCommand) flush() {
+	dsc.lock()
+	defer dsc.unlock()
+
+	dsc.ds.clearUnlocked()
+}
+
+// FLUSHALL: empties every database as one step. All database locks are held
+// while clearing; the global lock orders this against other commands that
+// need more than one database (inside EXEC it is already held, see fnExec).
+func (dsc *dataStoreCommand) flushAll(dss *dataStoreSet, inExec bool) {
+	if !inExec {
+		multiDataStoreLock.Lock()
+		defer multiDataStoreLock.Unlock()
+	}
+
+	for _, ds := range dss.allDbs() {
+		if ds == dsc.ds {
+			dsc.lock()
+			defer dsc.unlock()
+		} else {
+			other := ds.newDataStoreCommand()
+			other.lock()
+			defer other.unlock()
+		}
+	}
+
+	for _, ds := range dss.allDbs() {
+		ds.clearUnlocked()
+	}
+}
+
 // number of keys that have not expired
 func (dsc *dataStoreCommand) dbSize() (output respValue) {
 	dsc.lock()
